@@ -10,6 +10,14 @@ Monitor: a hook on the real ``AxialExpansionChanger.axiallyExpandAssembly`` snap
 execution (also the ones armi performs itself while building from blueprints): block z's and heights, grid bounds,
 per-component mass / number densities / z's, the factors and target designation recorded in ``expansionData`` and the
 component linkage.  An offline checker applies the laws of the statement, each only under its own premise.
+
+Construction (expandColdDimsToHot): the hook fires after armi's applyColdHeightMassIncrease, so the execution's own before/after masses cannot
+see that step.  The input-to-hot law therefore compares the mass after construction with the input itself: material.density(Tinput) x cold
+area x input block height, for each block's target sitting on the block boundary and every solid of a uniformly grown block (tight for
+materials whose density(T) is the cube of their linear expansion, a named loose tolerance otherwise).
+
+Temperature grids are ascending in ~80 % of the thermal operations and listed in another order otherwise (same points, same values).
+Fluids: number densities of fluids and of the top block are untouched by every execution and restored (with their masses) by inverse pairs.
 """
 import math
 import os
@@ -24,7 +32,8 @@ RULE = (
     "probes) built directly, from generated blueprints (cold->hot expansion at construction, detailedAxialExpansion on/off) and from "
     "armi/tests/detailedAxialExpansion; each driven by a program of 2-6 operations from {prescribed: one factor per assembly / per block / "
     "per component / targets only / named components only, factors in 0.92..1.08 (rarely 0.5..2 to provoke refusal); thermal: isothermal, "
-    "ramp or piecewise temperature fields 300..650 C on random grids} with inverse pairs. A case = one execution of axiallyExpandAssembly; "
+    "ramp or piecewise temperature fields 300..650 C on random grids, ~20 % of them with grid points and values listed in a shuffled order} "
+    "with inverse pairs. A case = one execution of axiallyExpandAssembly; "
     "distinct = (route, block layout with target designation, operation mode, position in program); non-trivial = some factor != 1."
 )
 TOLERANCES = {
@@ -34,16 +43,22 @@ TOLERANCES = {
     "temperature_rel": 1e-12,   # block-average temperature
     "inverse_rel": 1e-9,        # expand-then-inverse restores z, ndens, mass
     "known_ratio_abs": 1e-9,    # |observed mass ratio - closed form of the known mechanism|
+    "input_to_hot_mass_rel": 1e-9,  # mass after construction vs density(Tinput)*cold area*input height, material whose density(T) is refDens/(1+dLL(T))^3
+    "input_to_hot_mass_rel_inconsistent_material": 2e-3,  # same, material whose density(T) correlation is not the cube of its linear expansion (C03's subject)
 }
 EXHAUSTIVE = {"quick": False, "thorough": False}
 EXHAUSTIVE_PART = "none (sampled)"
 FLOORS = {
     "quick": {"law.height": 1100, "law.contiguity": 1100, "law.grid": 1100, "law.boundary": 5500, "law.target-mass": 5500, "law.uniform-solid-mass": 4500,
               "law.stacked": 10000, "law.component-height": 15000, "law.factors": 1100, "law.linkage": 1100, "law.inverse": 120, "law.temperature": 450,
-              "hook:AxialExpansionChanger.axiallyExpandAssembly": 1100, "construction.expandColdDimsToHot": 70},
+              "hook:AxialExpansionChanger.axiallyExpandAssembly": 1100, "construction.expandColdDimsToHot": 70,
+              "law.input-to-hot-mass": 500, "law.input-to-hot-mass.tight": 500, "law.input-to-hot-mass.loose": 6, "law.fluid-density-untouched": 1100,
+              "law.inverse-fluid": 1700, "law.target-designation": 5200, "law.unsorted-grid": 85},
     "thorough": {"law.height": 13000, "law.contiguity": 13000, "law.grid": 13000, "law.boundary": 65000, "law.target-mass": 65000, "law.uniform-solid-mass": 55000,
                  "law.stacked": 130000, "law.component-height": 190000, "law.factors": 13000, "law.linkage": 13000, "law.inverse": 1500, "law.temperature": 5500,
-                 "hook:AxialExpansionChanger.axiallyExpandAssembly": 13000, "construction.expandColdDimsToHot": 800},
+                 "hook:AxialExpansionChanger.axiallyExpandAssembly": 13000, "construction.expandColdDimsToHot": 800,
+                 "law.input-to-hot-mass": 6500, "law.input-to-hot-mass.tight": 6500, "law.input-to-hot-mass.loose": 100, "law.fluid-density-untouched": 13000,
+                 "law.inverse-fluid": 21000, "law.target-designation": 65000, "law.unsorted-grid": 1100},
 }
 TIMEOUT = {"quick": 600, "thorough": 3600}
 ASSUMPTIONS = [
@@ -51,8 +66,15 @@ ASSUMPTIONS = [
     "Material.linearExpansionPercent is the trusted expansion law for the thermal growth factor (judged in C03)",
     "axial linkage of two components is judged by the documented rule (both solid, same shape class, same multiplicity, max(inner) < min(outer) at cold "
     "dimensions) evaluated by the harness on Circle (id, od), Hexagon (ip, op) and Helix (helixDiameter -/+ od); other shapes are not generated",
+    "input state of a component for the cold-height law: Material.density(Tc=Tinput) and Component.getArea(cold=True) are trusted (material library / "
+    "geometry, C03); the law is applied only where the hot cross-section is the cold one grown by the material's own law (no dimension linked to another "
+    "component) and the component has no custom isotopics; a material is 'self-consistent' when density(T)*(1+dLL(T))^3 agrees at Tinput and Thot",
+    "target designation on armi/tests/detailedAxialExpansion is read off the blueprint block names and component names of that input (reference_target)",
 ]
 KNOWN_KEY = "target-mass/linked-below-nontarget-differential-growth"
+# one mechanism, two symptoms (a block holding grid points is refused / a block average over a subset of its points): the scan of the
+# temperature grid stops at the first point above the block's top, so points listed after it are never seen
+UNSORTED_KEY = "thermal/unsorted-grid/points-listed-after-a-higher-point-ignored"
 
 
 def plan(tier, seed):
@@ -245,6 +267,7 @@ def blueprint_text(designs):
 # ============================================================================================== monitor (hook + snapshots)
 EVENTS = []      # completed events: {"pre":…, "post":…, "meta":…}
 ABORTED = []     # events whose axiallyExpandAssembly raised
+WORST = {}       # largest relative errors seen by the loose-tolerance laws (reported as notes)
 
 
 def is_solid(c):
@@ -276,6 +299,36 @@ def documented_link(c1, c2):
     return max(e1[0], e2[0]) < min(e1[1], e2[1])
 
 
+def input_state(c):
+    """What the input says about a solid component that is about to be expanded from Tinput to Thot: the material's own 3D density at the
+    input temperature, the cross-section at the input (cold) dimensions, and whether the material library is self-consistent at the two
+    temperatures involved (density(T)*(1+dLL(T))^3 the same at Tinput and Thot, pseudoDensity(Thot) == density(Thot)*(1+dLL(Thot))).
+    Premise of the law: the cross-section grows freely, area(Thot) == area(cold) * ((1+dLL(Thot))/(1+dLL(Tinput)))^2.
+    Only trusted material / geometry calls (ASSUMPTIONS); nothing of the converter."""
+    try:
+        if c.p.customIsotopicsName:
+            return {"skip": "custom isotopics (number densities given by the input, not by the material's density)"}
+        m = c.material
+        Ti, Th = c.inputTemperatureInC, c.temperatureInC
+        ei, eh = 1.0 + m.linearExpansionPercent(Tc=Ti) / 100.0, 1.0 + m.linearExpansionPercent(Tc=Th) / 100.0
+        ri, rh, ph = m.density(Tc=Ti), m.density(Tc=Th), m.pseudoDensity(Tc=Th)
+        consistent = abs(ri * ei ** 3 - rh * eh ** 3) <= 1e-12 * abs(rh * eh ** 3) and abs(ph - rh * eh) <= 1e-12 * abs(ph)
+        ac, ah = c.getArea(cold=True), c.getArea()
+        if not abs(ah - ac * (eh / ei) ** 2) <= 1e-10 * abs(ah):
+            # e.g. a pellet whose od is linked to the id of a Void gap: its hot cross-section is dictated by the other component
+            return {"skip": "cross-section does not expand by the component's own material law (a dimension is linked to another component)"}
+        return {"rho": ri, "area": ac, "consistent": bool(consistent), "Tin": Ti, "Thot": Th}
+    except Exception as e:  # the trusted law refused: nothing to compare with
+        return {"skip": "material density / cold area not evaluable (%s)" % type(e).__name__}
+
+
+def mass_of(c):
+    try:
+        return c.getMass()
+    except ArithmeticError:  # negative volume: a block of negative height was accepted - reported by the contiguity law, not as a crash of the monitor
+        return float("nan")
+
+
 def snapshot(a):
     from armi.reactor.flags import Flags
 
@@ -283,9 +336,9 @@ def snapshot(a):
     for b in a:
         comps = []
         for c in b:
-            comps.append({"id": id(c), "name": c.name, "solid": is_solid(c), "mass": c.getMass(), "nd": dict(c.p.numberDensities), "zb": getattr(c, "zbottom", None),
+            comps.append({"id": id(c), "name": c.name, "solid": is_solid(c), "mass": mass_of(c), "nd": dict(c.p.numberDensities), "zb": getattr(c, "zbottom", None),
                           "zt": getattr(c, "ztop", None), "h": getattr(c, "height", None), "T": c.temperatureInC, "Tin": c.inputTemperatureInC, "mat": type(c.material).__name__})
-        blocks.append({"type": b.getType(), "zb": b.p.zbottom, "zt": b.p.ztop, "ph": b.p.height, "gh": b.getHeight(), "z": b.p.z, "dummy": b.hasFlags(Flags.DUMMY), "comps": comps,
+        blocks.append({"type": b.getType(), "sym": b.getSymmetryFactor(), "zb": b.p.zbottom, "zt": b.p.ztop, "ph": b.p.height, "gh": b.getHeight(), "z": b.p.z, "dummy": b.hasFlags(Flags.DUMMY), "comps": comps,
                        "tname": b.p.axialExpTargetComponent, "k": b.spatialLocator.k if b.spatialLocator is not None and hasattr(b.spatialLocator, "k") else None})
     bounds = a.spatialGrid._bounds[2] if a.spatialGrid is not None else None
     return {"blocks": blocks, "grid": [float(x) for x in bounds] if bounds is not None else None}
@@ -300,12 +353,15 @@ def install_hook():
         a = ch.linked.a
         s = snapshot(a)
         ed = ch.expansionData
-        meta = {"aid": id(a), "fromTinput": bool(ed.expandFromTinputToThot), "factors": {}, "targets": set(), "lower": {}, "doc_lower": {}, "objs": {}, "detailed": bool(ch._detailedAxialExpansion)}
+        meta = {"aid": id(a), "fromTinput": bool(ed.expandFromTinputToThot), "factors": {}, "targets": set(), "lower": {}, "doc_lower": {}, "objs": {}, "detailed": bool(ch._detailedAxialExpansion),
+                "input": {}}
         prev_solids = []
         for b in a:
             cur = [c for c in b if is_solid(c)]
             for c in cur:
                 meta["objs"][id(c)] = c
+                if meta["fromTinput"]:
+                    meta["input"][id(c)] = input_state(c)
                 meta["factors"][id(c)] = ed._expansionFactors.get(c, 1.0)
                 if c in ed._componentDeterminesBlockHeight:
                     meta["targets"].add(id(c))
@@ -392,6 +448,14 @@ def judge_event(rec, ev, w, expect=None, judge_mass=True):
             rec.violation("linkage/recorded-link-differs-from-documented-rule", "component linked below to %s by armi, documented rule gives %d candidates" % ("nothing" if got is None else "a component", len(doc)),
                           dict(w, component=name_of(pre, cid), armi_lower=name_of(pre, got), rule_lower=[name_of(pre, x) for x in doc]))
             break
+    # ---- number densities of fluids (and of everything in the top block) are not touched by an axial change of the solids
+    rec.hit("law.fluid-density-untouched")
+    for i, (b0, b1) in enumerate(zip(pre["blocks"], post["blocks"])):
+        bad = next((c0 for c0, c1 in zip(b0["comps"], b1["comps"]) if (i == nb - 1 or not c0["solid"]) and (c0["id"] != c1["id"] or c0["nd"] != c1["nd"])), None)
+        if bad is not None:
+            rec.violation("density/%s-number-densities-changed" % ("top-block" if i == nb - 1 else "fluid"), "block %d (%s) %s: number densities changed by axiallyExpandAssembly although it is %s"
+                          % (i, b0["type"], bad["name"], "in the top block" if i == nb - 1 else "a fluid"), dict(w, block=i, component=bad["name"]))
+            break
     # ---- per block laws below the top block
     has_dummy = pre["blocks"][-1]["dummy"]
     if not has_dummy and judge_mass:
@@ -424,6 +488,8 @@ def judge_event(rec, ev, w, expect=None, judge_mass=True):
             continue
         tname = pre_c[tid][1]["name"]
         exp_t = (w.get("expected_targets") or {}).get(i)
+        if exp_t is not None:
+            rec.hit("law.target-designation")
         if exp_t is not None and exp_t != tname:
             rec.violation("target/designation-differs-from-documented-rule", "block %d (%s): target %r, the blueprint/flag rule designates %r" % (i, b0["type"], tname, exp_t), dict(w, block=i))
         # L3 boundary moves with target
@@ -510,11 +576,12 @@ def judge_inverse(rec, s0, s2, w):
         if not (rel(b0["zb"], b2["zb"], tol, H) and rel(b0["zt"], b2["zt"], tol, H) and rel(b0["gh"], b2["gh"], tol, H)):
             rec.violation("inverse/heights-not-restored", "block %d: z %r..%r -> %r..%r after expansion and its inverse" % (i, b0["zb"], b0["zt"], b2["zb"], b2["zt"]), dict(w, block=i))
             return
-        if i == len(s0["blocks"]) - 1:
-            continue
+        top = i == len(s0["blocks"]) - 1
         for c0, c2 in zip(b0["comps"], b2["comps"]):
+            if top and c0["solid"]:
+                continue  # solids of the top block are outside the statement (it absorbs the change)
             if not c0["solid"]:
-                continue
+                rec.hit("law.inverse-fluid")
             for nuc, n0 in c0["nd"].items():
                 if not rel(n0, c2["nd"].get(nuc, float("nan")), tol):
                     rec.violation("inverse/number-density-not-restored", "block %d %s N(%s) %r -> %r" % (i, c0["name"], nuc, n0, c2["nd"].get(nuc)), dict(w, block=i, component=c0["name"]))
@@ -586,7 +653,9 @@ def gen_prescribed(rng, a, extreme=False):
 
 
 def gen_field(rng, a, force_iso=False):
-    """(mode, grid, field) - a temperature field on a random sorted grid; block midpoints added so every block holds a point (mostly)."""
+    """(mode, grid, field) - a temperature field on a random grid; block midpoints added so every block holds a point (mostly).  The grid is
+    ascending in ~80 % of the calls; otherwise grid and field are shuffled together (the same points listed in another order: the API takes
+    'physical locations where temp is stored' and documents no ordering)."""
     H = a[-1].p.ztop
     mode = "isothermal" if force_iso else rng.choice(["isothermal", "ramp", "piecewise", "piecewise", "noisy"])
     n = rng.randint(3, 30)
@@ -607,6 +676,10 @@ def gen_field(rng, a, force_iso=False):
         field = [vals[sum(1 for c in cuts if c <= z)] for z in grid]
     else:
         field = [rng.uniform(lo, hi) for _ in grid]
+    if rng.random() < .2:
+        order = list(range(len(grid)))
+        rng.shuffle(order)
+        grid, field = [grid[k] for k in order], [field[k] for k in order]
     return mode, grid, field
 
 
@@ -615,6 +688,21 @@ def block_mean_temps(a, grid, field):
     out = []
     for b in a:
         vals = [t for z, t in zip(grid, field) if b.p.zbottom <= z <= b.p.ztop]
+        out.append(sum(vals) / len(vals) if vals else None)
+    return out
+
+
+def scan_stopping_at_first_higher_point(a, grid, field):
+    """Closed form of the mechanism reported under UNSORTED_KEY: per block the mean over the points met before the first point above the
+    block's top (None: no point met).  Only used to attribute an observed deviation to that mechanism, never as the expected value."""
+    out = []
+    for b in a:
+        vals = []
+        for z, t in zip(grid, field):
+            if b.p.zbottom <= z <= b.p.ztop:
+                vals.append(t)
+            if z > b.p.ztop:
+                break
         out.append(sum(vals) / len(vals) if vals else None)
     return out
 
@@ -720,6 +808,9 @@ class Driver:
         ch = ch or self.changer(rng)
         w = dict(self.w, op={"kind": "thermal", "mode": mode, "grid": grid[:60], "field": field[:60], "setFuel": setFuel}, history=list(self.history))
         means = block_mean_temps(a, grid, field)
+        unsorted = any(grid[k] > grid[k + 1] for k in range(len(grid) - 1))
+        scan = scan_stopping_at_first_higher_point(a, grid, field) if unsorted else means
+        w["op"]["grid_ascending"] = not unsorted
         expect = {"kind": "thermal", "factors": {}}
         temps_before = {}
         try:
@@ -741,6 +832,20 @@ class Driver:
                 rec.reject("ValueError: a block holds no temperature grid point")
                 # components of lower blocks already carry new temperatures; the assembly stays usable (no axial change happened)
                 return None
+            if isinstance(e, ValueError) and "no temperature points within it" in str(e) and unsorted and any(m is None for m in scan):
+                # every block holds a grid point, but the points are not listed bottom-up
+                rec.hit("law.unsorted-grid")
+                held = [sum(1 for z in grid if b.p.zbottom <= z <= b.p.ztop) for b in a]
+                rec.violation(UNSORTED_KEY, "performThermalAxialExpansion refused (%s) although every block holds at least one point of the temperature grid "
+                              "(points per block %r); the grid is not in ascending order" % (str(e)[:120], held), dict(w, symptom="refused", points_per_block=held))
+                # no axial change happened, but the blocks below the refused one already carry the new temperatures: the harness rolls these
+                # back (so that the half-applied call is not reported a second time by the inverse law) and lists the same points bottom-up
+                for b in a:
+                    for c in b:
+                        if c.temperatureInC != temps_before[id(c)]:
+                            c.setTemperature(temps_before[id(c)])
+                order = sorted(range(len(grid)), key=lambda k: grid[k])
+                return self.thermal(rng, mode, [grid[k] for k in order], [field[k] for k in order], ch=ch, setFuel=setFuel, label=label)
             if not self._refused(e, "thermal", ab, multi, w):
                 rec.crash("performThermalAxialExpansion", e, w)
                 self.dead = True
@@ -750,11 +855,30 @@ class Driver:
             rec.violation("thermal/block-without-temperature-point-accepted", "a block without any grid point was expanded", w)
             return None
         rec.hit("law.temperature")
+        if unsorted:
+            rec.hit("law.unsorted-grid")
+        wrong = False
+        # a deviation is attributed to the unsorted-grid mechanism only if that mechanism's closed form reproduces every temperature
+        explained = unsorted and all(m is not None and rel(c.temperatureInC, m, TOLERANCES["temperature_rel"]) for b, m in zip(a, scan) for c in b)
         for ib, b in enumerate(a):
             for c in b:
                 if not rel(c.temperatureInC, means[ib], TOLERANCES["temperature_rel"]):
-                    rec.violation("thermal/component-temperature-not-block-average", "block %d %s at %r C, mean of field points within the block %r" % (ib, c.name, c.temperatureInC, means[ib]), dict(w, block=ib))
+                    wrong = True
+                    rec.violation(UNSORTED_KEY if explained else "thermal/component-temperature-not-block-average",
+                                  "block %d %s at %r C, mean of the field points within the block %r%s" % (ib, c.name, c.temperatureInC, means[ib], " (grid not in ascending order)" if unsorted else ""),
+                                  dict(w, symptom="wrong block average", block=ib))
                     break
+        if wrong and unsorted:
+            # the temperatures are already reported; judge the axial change itself against the temperatures the components really carry,
+            # so that one mechanism is not reported a second time under the factor law
+            try:
+                for ib, b in enumerate(a):
+                    for c in b:
+                        if is_solid(c):
+                            expect["factors"][id(c)] = (100.0 + pct(c, c.temperatureInC)) / (100.0 + pct(c, temps_before[id(c)]))
+            except Exception as e:
+                rec.skip("material law not evaluable at the assigned temperature (%s)" % type(e).__name__)
+                return None
         return self._judge(evs, w, expect, mode, label or "thermal", multi)
 
     def _judge(self, evs, w, expect, mode, label, multi):
@@ -836,6 +960,8 @@ def run_shard(spec, rec):
     {"direct": do_direct, "blueprint": do_blueprint, "reference": do_reference}[spec["kind"]](spec, rec)
     if EVENTS:
         rec.note("unconsumed_events", len(EVENTS))
+    for k, v in WORST.items():
+        rec.note(k, [v])
 
 
 def do_direct(spec, rec):
@@ -877,9 +1003,58 @@ def judge_construction_events(rec, w, exp_targets_by_layout=None):
                         if obj is not None:
                             expect["factors"][c["id"]] = (100.0 + pct(obj, c["T"])) / (100.0 + pct(obj, c["Tin"]))
         summary = judge_event(rec, ev, w2, expect=expect if expect and expect["factors"] else None)
+        if expect is not None and expect["factors"]:
+            judge_input_to_hot(rec, ev, w2, expect["factors"])
         nontrivial = any(f != 1.0 for f in ev["meta"]["factors"].values())
         rec.case(["construction", [(b["type"], b["tname"], len(b["comps"])) for b in pre["blocks"]], summary["uniform"]], nontrivial=nontrivial)
     return len(evs)
+
+
+def judge_input_to_hot(rec, ev, w, fac):
+    """The cold-height law of construction (expandColdDimsToHot = applyColdHeightMassIncrease + expansion from Tinput to Thot): the input gives
+    every component at its input temperature - cold dimensions, the block's input height - so a component that ends with its bottom on the
+    block boundary and grew by the block's own height factor holds material.density(Tinput) * area(cold) * input height (per symmetry
+    factor).  Judged for each block's target (when it sits on the boundary) and for every solid of a block that grew uniformly.
+    fac: the material-law growth factors computed by the harness (component id -> f)."""
+    pre, post, meta = ev["pre"], ev["post"], ev["meta"]
+    if not pre["blocks"][-1]["dummy"]:
+        return
+    post_c = {c["id"]: c for b in post["blocks"] for c in b["comps"]}
+    for i in range(len(pre["blocks"]) - 1):
+        b0, b1 = pre["blocks"][i], post["blocks"][i]
+        solids = [c for c in b0["comps"] if c["solid"]]
+        tg = [c for c in solids if c["id"] in meta["targets"]]
+        if len(tg) != 1:
+            continue  # reported by judge_event
+        t1 = post_c[tg[0]["id"]]
+        if t1["zb"] != b1["zb"]:
+            rec.add("input-to-hot mass not judged: target does not sit on the block boundary (block height is not the target's grown height; see " + KNOWN_KEY + ")")
+            continue
+        ft = fac.get(tg[0]["id"])
+        for c0 in solids:
+            cid = c0["id"]
+            if cid != tg[0]["id"] and (ft is None or fac.get(cid) != ft):
+                continue  # a non-target solid growing by another fraction than the block: its mass is not claimed
+            inp = meta["input"].get(cid) or {"skip": "no input state recorded"}
+            if "skip" in inp:
+                rec.add("input-to-hot mass not judged: " + inp["skip"])
+                continue
+            want = inp["rho"] * inp["area"] * b0["gh"] / b0["sym"]
+            if not want > 0:
+                continue
+            got = post_c[cid]["mass"]
+            strict = inp["consistent"]
+            rec.hit("law.input-to-hot-mass")
+            rec.hit("law.input-to-hot-mass.tight" if strict else "law.input-to-hot-mass.loose")  # self-consistent material / density(T) not the cube of dLL(T)
+            err = abs(got - want) / want
+            k = "input_to_hot_worst_rel_err_%s" % ("tight" if strict else "loose")
+            WORST[k] = max(WORST.get(k, 0.0), err)
+            if err > TOLERANCES["input_to_hot_mass_rel" if strict else "input_to_hot_mass_rel_inconsistent_material"]:
+                role = "target" if cid == tg[0]["id"] else "solid-of-uniform-block"
+                rec.violation("input-to-hot-mass/%s-differs-from-input-density-times-cold-volume" % role,
+                              "block %d (%s) %s %s (%s, Tinput %r -> Thot %r) holds %r g after construction; density(Tinput) %r x cold area %r x input height %r / symmetry %r = %r g (rel. error %.3e)"
+                              % (i, b0["type"], role, c0["name"], c0["mat"], inp["Tin"], inp["Thot"], got, inp["rho"], inp["area"], b0["gh"], b0["sym"], want, err),
+                              dict(w, block=i, component=c0["name"], material=c0["mat"], mass_after_construction=got, expected=want, rel_err=err, self_consistent_material=strict))
 
 
 def do_blueprint(spec, rec):
@@ -935,6 +1110,19 @@ def do_blueprint(spec, rec):
             run_program(rec, rng, drv)
 
 
+def reference_target(block_type):
+    """Target designation of a block of armi/tests/detailedAxialExpansion by the documented rule, read off the block's blueprint name (block
+    type) and the input's component names: plenum / aclp blocks follow their clad (also the one block with an explicit designation, 'radial
+    shield aclp': clad); otherwise the fuel, control, shield component; grid plate and duct blocks their only solid."""
+    t = block_type.lower()
+    if "plenum" in t or "aclp" in t:
+        return "clad"
+    for key, comp in (("fuel", "fuel"), ("control", "control"), ("shield", "shield"), ("grid plate", "grid"), ("duct", "duct")):
+        if key in t:
+            return comp
+    return None
+
+
 def do_reference(spec, rec):
     """armi/tests/detailedAxialExpansion as shipped (cold->hot at construction or heights considered hot)."""
     from armi.reactor.flags import Flags
@@ -953,12 +1141,16 @@ def do_reference(spec, rec):
         except Exception as e:
             rec.crash("load-detailedAxialExpansion", e, w)
             continue
-        n = judge_construction_events(rec, w)
+        exp_by_layout = {}
+        for a in r.core:
+            lay = tuple(b.getType() for b in a)
+            exp_by_layout[lay] = {k: reference_target(t) for k, t in enumerate(lay[:-1]) if reference_target(t)}
+        n = judge_construction_events(rec, w, exp_by_layout)
         if not hot and n == 0 and i == 0:
             rec.violation("monitor/construction-expansion-not-observed", "loading with inputHeightsConsideredHot False produced no axiallyExpandAssembly execution", w)
         assems = list(r.core)
         rng.shuffle(assems)
         for a in assems[:3]:
             aw = dict(w, assembly={"type": a.getType(), "blocks": [(b.getType(), b.getHeight(), [c.name for c in b]) for b in a]})
-            drv = Driver(rec, a, aw, "reference", [a.getType(), [b.getType() for b in a]])
+            drv = Driver(rec, a, aw, "reference", [a.getType(), [b.getType() for b in a]], expected_targets=exp_by_layout.get(tuple(b.getType() for b in a)))
             run_program(rec, rng, drv)
